@@ -96,6 +96,7 @@ type GenesisSpec struct {
 }
 
 type Chain struct {
+	blocks  int // blocks begun since InitChain
 	App     *app.SettlusApp
 	Spec    GenesisSpec
 	Height  int64
@@ -335,6 +336,12 @@ func (c *Chain) Begin() (pi *PanicInfo) {
 		ProposerAddress: proposer,
 		AppHash:         c.App.LastCommitID().Hash,
 	}
+	if c.blocks > 0 {
+		// as on a real network: every block but the first one after genesis names its predecessor
+		prev := sha256.Sum256([]byte(fmt.Sprintf("block %d %x", c.Height-1, c.App.LastCommitID().Hash)))
+		c.header.LastBlockId = tmproto.BlockID{Hash: prev[:]}
+	}
+	c.blocks++
 	defer func() {
 		if r := recover(); r != nil {
 			pi = &PanicInfo{Where: "BeginBlock", Msg: fmt.Sprint(r)}
